@@ -129,6 +129,7 @@ type c30ReaderResult struct {
 }
 
 func c30Run(x *explore.Ctx) {
+	gpfile.VerifResetPools()
 	scs := c30Scenarios()
 	sc := scs[x.Case%len(scs)]
 	reader := (x.Case / len(scs)) % 3
